@@ -73,6 +73,8 @@ pub async fn insert_and_maybe_flush(
             .await?;
 
         // Opportunistic pruning: every max_inflight/2 rotations
+        #[cfg(sneldb_verif)]
+        crate::verif::point("flush.queued");
         let prune_every = std::cmp::max(1, ctx.passive_buffers.max_inflight() / 2);
         if (ctx.segment_id as usize) % prune_every == 0 {
             ctx.passive_buffers.prune_empties().await;
